@@ -14,9 +14,12 @@ From GV Require Export Vec.Hnsw Vec.Brute.
 Import ListNotations.
 Open Scope Z_scope.
 
-(** ---- usize arithmetic of the dev/test profile (overflow checks on): [None] = panic ---- *)
+(** ---- usize arithmetic ---- *)
 Definition usize_max : Z := 2 ^ 64 - 1.
-Definition mul_usize (a b : Z) : option Z := if a * b <=? usize_max then Some (a * b) else None.
+(** [a.saturating_mul(b)] — the code as it is NOW (repair dc6fd9d) *)
+Definition sat_mul_usize (a b : Z) : Z := Z.min (a * b) usize_max.
+(** [a * b] of the dev/test profile (overflow checks on): [None] = panic — the code BEFORE dc6fd9d *)
+Definition mul_usize_pre (a b : Z) : option Z := if a * b <=? usize_max then Some (a * b) else None.
 
 Inductive qres (A : Type) := QOk (r : A) | QPanic.
 Arguments QOk {A}. Arguments QPanic {A}.
@@ -37,12 +40,19 @@ Section Quantized.
       (scalar, product) or rescore_factor * 2 (binary; the code multiplies twice, both checked);
       [pre] = what happens to the HNSW candidates before rescoring: nothing (scalar), ranking by
       the hamming estimate (binary), ranking by the PQ table distance and [truncate(k)] (product). *)
-  Definition num_candidates (k : Z) (mults : list Z) : option Z :=
-    fold_left (fun acc m => match acc with Some a => mul_usize a m | None => None end) mults (Some k).
+  Definition num_candidates (k : Z) (mults : list Z) : Z := fold_left sat_mul_usize mults k.
   Definition qsearch (s : state V) (q : V) (k ef : Z) (mults : list Z) (do_rescore : bool)
+             (pre : list (Z * D) -> list (Z * D)) : list (Z * D) :=
+    if do_rescore then rescore (nodes s) q (pre (xsearch X s q (num_candidates k mults) ef)) k
+    else takez k (pre (xsearch X s q k ef)).
+
+  (** before dc6fd9d: k x rescore_factor (x 2 for binary) with checked multiplication *)
+  Definition num_candidates_pre (k : Z) (mults : list Z) : option Z :=
+    fold_left (fun acc m => match acc with Some a => mul_usize_pre a m | None => None end) mults (Some k).
+  Definition qsearch_pre (s : state V) (q : V) (k ef : Z) (mults : list Z) (do_rescore : bool)
              (pre : list (Z * D) -> list (Z * D)) : qres (list (Z * D)) :=
     if do_rescore then
-      match num_candidates k mults with
+      match num_candidates_pre k mults with
       | None => QPanic
       | Some nc => QOk (rescore (nodes s) q (pre (xsearch X s q nc ef)) k)
       end
@@ -129,17 +139,15 @@ Section Join.
       end
     end.
 
-  (** one call of next(): [None] = Ok(None) *)
-  Definition jnext (cap : nat) (st : jstate) : jstate * option (list (L * R)) :=
+  (** one call of next(): [None] = Ok(None).  [started] = current_left_chunk.is_some().
+      The code as it is NOW (repair 5466afe):
+        if current_result_position >= current_results.len() {
+            if current_left_chunk.is_some() { current_left_row += 1 }
+            if !advance_left() { return None } } *)
+  Definition jnext (cap : nat) (st : jstate) (started : bool) : jstate * option (list (L * R)) :=
     if j_exhausted st && match j_cur st with [] => true | _ => false end then (st, None) else
-    (* if current_result_position >= current_results.len() && !advance_left() { return None }
-       — advance_left is called WITHOUT moving to the next row: after a chunk that ended exactly
-       at the end of a row's results the same row is searched again *)
     let pre := match j_cur st with
-               | [] => match advance_left (j_rest st) with
-                       | None => None
-                       | Some (rest', cur') => Some (rest', cur')
-                       end
+               | [] => advance_left (if started then tl (j_rest st) else j_rest st)
                | _ => Some (j_rest st, j_cur st)
                end in
     match pre with
@@ -150,14 +158,39 @@ Section Join.
         (mk_j rest' cur' exh', match out with [] => None | _ => Some out end)
       end
     end.
-
-  (** drive the operator: the chunks produced by at most [fuel] calls, and whether it finished *)
-  Fixpoint jrun (fuel : nat) (cap : nat) (st : jstate) : list (list (L * R)) * bool :=
+  (** drive the operator: the chunks produced by at most [fuel] calls, and whether it finished;
+      after the first call a left chunk has been fetched *)
+  Fixpoint jrun (fuel : nat) (cap : nat) (st : jstate) (started : bool) : list (list (L * R)) * bool :=
     match fuel with
     | O => ([], false)
-    | S f => match jnext cap st with
+    | S f => match jnext cap st started with
              | (_, None) => ([], true)
-             | (st', Some ch) => let '(chs, fin) := jrun f cap st' in (ch :: chs, fin)
+             | (st', Some ch) => let '(chs, fin) := jrun f cap st' true in (ch :: chs, fin)
+             end
+    end.
+
+  (** before 5466afe: advance_left was called WITHOUT moving to the next row — after a chunk that
+      ended exactly at the end of a row's results the same row was searched again *)
+  Definition jnext_pre (cap : nat) (st : jstate) : jstate * option (list (L * R)) :=
+    if j_exhausted st && match j_cur st with [] => true | _ => false end then (st, None) else
+    let pre := match j_cur st with
+               | [] => advance_left (j_rest st)
+               | _ => Some (j_rest st, j_cur st)
+               end in
+    match pre with
+    | None => (mk_j [] [] true, None)
+    | Some (rest, cur) =>
+      match fill cap rest cur (j_exhausted st) [] with
+      | (rest', cur', exh', out) =>
+        (mk_j rest' cur' exh', match out with [] => None | _ => Some out end)
+      end
+    end.
+  Fixpoint jrun_pre (fuel : nat) (cap : nat) (st : jstate) : list (list (L * R)) * bool :=
+    match fuel with
+    | O => ([], false)
+    | S f => match jnext_pre cap st with
+             | (_, None) => ([], true)
+             | (st', Some ch) => let '(chs, fin) := jrun_pre f cap st' in (ch :: chs, fin)
              end
     end.
   Definition jinit (rows : list row) : jstate := mk_j rows [] false.
@@ -166,7 +199,7 @@ Section Join.
   Definition join_spec (rows : list row) : list (L * R) :=
     flat_map (fun r => map (fun x => (fst r, x)) (snd r)) rows.
 
-  (** finding class C18-K4: the results of some left row end exactly where an output chunk ends,
+  (** class of the repaired defect C18-K4: the results of some left row end exactly where an output chunk ends,
       i.e. a prefix of the rows has a positive number of results that is a multiple of the
       chunk capacity *)
   Fixpoint prefix_hits (cap : nat) (acc : nat) (rows : list row) : bool :=
@@ -180,4 +213,5 @@ Section Join.
 End Join.
 Arguments mk_j {L R}. Arguments j_rest {L R}. Arguments j_cur {L R}. Arguments j_exhausted {L R}.
 Arguments advance_left {L R}. Arguments fill {L R}. Arguments jnext {L R}. Arguments jrun {L R}.
+Arguments jnext_pre {L R}. Arguments jrun_pre {L R}.
 Arguments jinit {L R}. Arguments join_spec {L R}. Arguments k_join_boundary {L R}. Arguments prefix_hits {L R}.
